@@ -172,8 +172,19 @@ func entryLocksMemo(c *Ctx, fn *ssa.Function, scope map[*ssa.Function]bool) []he
 	return v
 }
 
-func ruleGuardedBy(c *Ctx, prefix string) {
+func ruleGuardedBy(c *Ctx, prefix string, only ...string) {
 	table := buildGuardTable(c)
+	if len(only) > 0 {
+		var t2 []*guardEntry
+		for _, e := range table {
+			for _, o := range only {
+				if strings.HasPrefix(e.Name, o) {
+					t2 = append(t2, e)
+				}
+			}
+		}
+		table = t2
+	}
 	ro := FindRoots(c.P, c.R)
 	roots := append([]*ssa.Function{ro.Handle4, ro.Handle6}, ro.AllHandlers()...)
 	roots = append(roots, goEntries(c)...)
